@@ -54,7 +54,31 @@ def setup():
 
     def fake_compile_from_file(self, path, filename):
         OPS.append(("compile", path, filename))
+        if path is not None:
+            # the real module writer runs on the (symbolic) module path with recording stubs for its file-system calls
+            TP._compile_module_file(self, "text", filename, path, None)
         return types.SimpleNamespace(render_body=lambda *a, **k: None, _modified_time=0)
+
+    def rec_mkstemp(suffix=None, prefix=None, dir=None, text=False):
+        d = dir if dir is not None else "/tmp"          # tempfile's default: the system temporary directory
+        name = d + "/" + (prefix or "tmp") + "k3x9" + (suffix or "")
+        OPS.append(("create", name))
+        return 7, name
+
+    shim = TP.os
+
+    class TemplateOs:
+        path = shim.path
+        write = staticmethod(lambda fd, data: len(data))
+        close = staticmethod(lambda fd: None)
+
+        def __getattr__(self, k):
+            return getattr(shim, k)
+
+    TP.os = TemplateOs()
+    TP.tempfile = types.SimpleNamespace(mkstemp=rec_mkstemp)
+    TP.shutil = types.SimpleNamespace(move=lambda a, b: OPS.append(("move", a, b)))
+    TP._compile = lambda template, text, filename, generate_magic_comment: (b"module source", types.SimpleNamespace(encoding="utf-8"))
 
     TP.Template._compile_from_file = fake_compile_from_file
     DOMAIN = common.domain_for([LK, TP, PP], reps=2)
@@ -163,6 +187,10 @@ def make_on_path(cfgname, via):
                 checks.append(("read", op[2], roots))
                 if op[1] is not None:
                     checks.append(("module-file", op[1], [moddir] if moddir else []))
+            elif op[0] == "create":
+                checks.append(("created-file", op[1], [moddir] if moddir else []))
+            elif op[0] == "move":
+                checks.append(("moved-to", op[2], [moddir] if moddir else []))
         for what, path, allowed in checks:
             res = env.ref_resolve(values._items(path))
             formula = z3.Or([segs_under(res, a) for a in allowed]) if allowed else z3.BoolVal(False)
@@ -199,6 +227,7 @@ import os, tempfile, shutil, posixpath
 from mako.lookup import TemplateLookup
 from mako import exceptions
 URI, VIA, REL = %r, %r, %r
+class _NoTemplate(Exception): pass
 base = tempfile.mkdtemp(prefix="c09replay")
 try:
     # real directories: roots below base, secrets everywhere else below base
@@ -216,8 +245,8 @@ try:
             p = os.path.join(d, n)
             if not os.path.exists(p):
                 try:
-                    open(p, "w").write("SECRET:" + p)
-                except OSError: pass
+                    open(p, "w").write("SECRET:" + p.encode("utf-8", "replace").hex())
+                except (OSError, ValueError): pass
     d = base
     plant(d)
     for r_ in dirs:
@@ -229,8 +258,16 @@ try:
     for r_ in dirs:
         for n in names:
             p = os.path.join(r_, n)
-            if not os.path.exists(p): open(p, "w").write("inside:" + n)
+            try:
+                if not os.path.exists(p): open(p, "w").write("inside:" + n.encode("utf-8", "replace").hex())
+            except (OSError, ValueError): pass
     lk = TemplateLookup(dirs, module_directory=moddir)
+    import tempfile as _tf
+    created = []
+    _orig_mkstemp = _tf.mkstemp
+    def _rec(*a, **k):
+        r_ = _orig_mkstemp(*a, **k); created.append(r_[1]); return r_
+    _tf.mkstemp = _rec
     before = set()
     for root, ds, fs in os.walk(base):
         for f in fs: before.add(os.path.join(root, f))
@@ -243,25 +280,54 @@ try:
             ctx = types.SimpleNamespace(_with_template=types.SimpleNamespace(lookup=lk, uri=REL))
             t = runtime._lookup_template(ctx, URI, REL)
     except exceptions.TemplateLookupException as e:
-        print("raised TemplateLookupException: HOLDS"); sys.exit(0)
-    except (IsADirectoryError, PermissionError) as e:
-        print("raised", type(e).__name__, ": no template returned"); sys.exit(0)
+        print("real files: raised TemplateLookupException"); raise _NoTemplate()
+    except (IsADirectoryError, PermissionError, ValueError) as e:
+        print("real files: raised", type(e).__name__, ": no template returned"); raise _NoTemplate()
     fn = os.path.realpath(t.filename)
     inside = any(fn == os.path.realpath(d) or fn.startswith(os.path.realpath(d) + os.sep) for d in dirs)
     out = t.render()
     print("uri", repr(URI), "-> filename", fn, "inside roots:", inside, "rendered:", repr(out)[:80])
     bad = (not inside) or ("SECRET:" in out)
-    after = set()
+    after = set(created)
     for root, ds, fs in os.walk(base):
         for f in fs: after.add(os.path.join(root, f))
     for f in sorted(after - before):
         if moddir is None or not os.path.realpath(f).startswith(os.path.realpath(moddir) + os.sep):
             print("file created outside module_directory:", f); bad = True
-    print("VIOLATED: lookup escaped its directories" if bad else "HOLDS")
-    sys.exit(1 if bad else 0)
+    if bad:
+        print("VIOLATED: lookup escaped its directories"); sys.exit(1)
+except _NoTemplate:
+    pass
 finally:
     shutil.rmtree(base, ignore_errors=True)
-''' % (i["uri"], i["via"], i["rel"], cfg["dirs"], cfg["moddir"], cfg["moddir"])
+# second stage: the escape may point at an absolute path outside the scratch area (which only exists on a machine that has
+# such a file): ask the real lookup which file it would read when every path names a readable file
+sys.path.insert(0, "/verif")
+from props.realops import lookup_probe
+DIRS, MODDIR = %r, %r
+def ancestors(dirs):
+    out = []
+    for d in dirs:
+        d = posixpath.normpath(d)
+        while True:
+            if d not in out: out.append(d)
+            if d == "/": break
+            d = posixpath.dirname(d)
+    return out
+res = lookup_probe(URI, DIRS, MODDIR, VIA, REL, ancestors(DIRS))
+print("with every path naming a readable file:", res)
+bad = False
+if res[0] == "ok":
+    def under(path, roots):
+        q = posixpath.normpath(path)
+        return any(q == posixpath.normpath(r) or q.startswith(posixpath.normpath(r).rstrip("/") + "/") for r in roots)
+    if not under(res[1], DIRS): bad = True; print("template file read:", res[1], "- outside", DIRS)
+    for op in res[2]:
+        if not under(op[2], DIRS): bad = True; print("source read:", op[2])
+        if op[1] is not None and not (MODDIR and under(op[1], [MODDIR])): bad = True; print("module file written:", op[1])
+print("VIOLATED: lookup escaped its directories" if bad else "HOLDS")
+sys.exit(1 if bad else 0)
+''' % (i["uri"], i["via"], i["rel"], cfg["dirs"], cfg["moddir"], cfg["moddir"], cfg["dirs"], cfg["moddir"])
     return (c["kind"], body, (i["uri"], i["cfg"], i["via"], i["rel"]))
 
 
@@ -274,7 +340,9 @@ def run(check, tier):
     check.encode(*kernel())
     check.assume(
         "adversarial file system: os.path.isfile answers True for every path, so containment cannot rely on a file being absent",
-        "Template._compile_from_file is replaced by a recorder of (module path, source filename): the files a Template would read and write",
+        "Template._compile_from_file is replaced by a recorder of (module path, source filename): the files a Template would read and write; "
+        "for a module path the real _compile_module_file runs with recording stubs for tempfile.mkstemp / os.write / os.close / shutil.move "
+        "(a mkstemp without dir= creates its file in /tmp, as tempfile does): every file it creates or moves into place must lie beneath module_directory",
         "posixpath.normpath/join/dirname/abspath are executed from the interpreter's own posixpath.py source (pure-Python normpath); "
         "every path witness is also run through the real C-accelerated functions in the replay interpreter and must agree",
         "containment is judged by an independent lexical resolver (symx.env.ref_resolve), not by posixpath",
@@ -300,6 +368,9 @@ def run(check, tier):
             jobs.append(("C09-seg-%s-%d" % (via, k), make_harness(k, "moddir", via, SEGS[tier]), make_on_path("moddir", via),
                          "%s, %d segments from %r joined by symbolic separators" % (via, k, SEGS[tier]),
                          dict(segments=k, segment_kinds=SEGS[tier], separators="symbolic / or backslash, optional leading")))
+    import os
+    if os.environ.get("C09_ONLY"):          # development aid: run one part only
+        jobs = [j for j in jobs if j[0].startswith(os.environ["C09_ONLY"])]
     for j in jobs:
         driver.register(j[0], j[1], j[2])
     cands = []
